@@ -68,6 +68,7 @@ type WorkerOut struct {
 	Harness     string            `json:"harness"`
 	Property    string            `json:"property"`
 	Runs        int               `json:"runs"`
+	Cases       int               `json:"cases"`
 	NonTrivial  int               `json:"nontrivial"`
 	Hashes      []string          `json:"hashes"` // schedule hashes of non-trivial runs
 	States      []string          `json:"states"`
@@ -219,7 +220,12 @@ func WorkerMain(t *testing.T, h Harness) {
 			}
 			continue
 		}
-		out.Runs++
+		out.Cases++
+		if r.Executions > 1 {
+			out.Runs += r.Executions
+		} else {
+			out.Runs++
+		}
 		out.Steps += int64(r.Steps)
 		out.SimSeconds += r.SimTime.Seconds()
 		out.NonBaton += r.NonBaton
@@ -243,6 +249,9 @@ func WorkerMain(t *testing.T, h Harness) {
 		if nt {
 			out.NonTrivial++
 			out.Hashes = append(out.Hashes, strconv.FormatUint(r.SchedHash, 16))
+			for _, h := range r.ExtraHashes {
+				out.Hashes = append(out.Hashes, strconv.FormatUint(h, 16))
+			}
 		}
 		for _, st := range r.States {
 			if !seenState[st] {
@@ -331,6 +340,9 @@ func fullHash(r *Result) string {
 	fmt.Fprintf(&sb, "%x/%d/%d/%d", r.SchedHash, r.Steps, int64(r.SimTime), r.TapeUsed)
 	for _, v := range r.Violations {
 		sb.WriteString("/" + v.Signature)
+	}
+	for _, h := range r.ExtraHashes {
+		fmt.Fprintf(&sb, "/%x", h)
 	}
 	keys := make([]string, 0, len(r.Info))
 	for k := range r.Info {
